@@ -432,8 +432,12 @@ def extra_C18(rng, tier, st, cov):
     try:
         configs = [(t, k, sz) for t in ('d', 'f', 'l') for k in ('plain', 'vegas', 'mc') for sz in ('small', 'medium', 'large')]
         rng.shuffle(configs)
-        configs = configs[:6 if tier == 'quick' else 27]
-        if not any(c[2] == 'large' for c in configs): configs[0] = (configs[0][0], configs[0][1], 'large')
+        if tier == 'quick':
+            # two of every size (small texts fit into one write, large ones need many)
+            picked = []
+            for sz in ('small', 'medium', 'large'):
+                picked += [c for c in configs if c[2] == sz][:2]
+            configs = picked
         for n, (t, kind, size) in enumerate(configs):
             fmt = FMTS[t]
             spec, info = c18_spec(rng, fmt, kind, size)
